@@ -366,7 +366,19 @@ def r07_4_composite_pairing(ctx: Ctx) -> RuleResult:
     if by_value:
         rr.fail(ffp.qual, f"`{unparse(by_value[0])[:80]}` looks the accepting predicate up by VALUE: with the same predicate object registered twice the first of its patterns is used, not the last accepting one", ctx.loc(ffp, by_value[0]))
     elif by_position:
-        rr.ok({"lookup": unparse(by_position[0])[:80], "by": "loop position"})
+        # every position must be visited: range(len - 1, -1, -1) / reversed(range(len)) / enumerate
+        short = None
+        for l in own_nodes(ffp.node):
+            if isinstance(l, ast.For) and isinstance(l.iter, ast.Call) and unparse(l.iter.func) == "range":
+                a = l.iter.args
+                if len(a) == 3 and unparse(a[2]) == "-1" and unparse(a[1]) != "-1":
+                    short = l
+                if len(a) == 2 and unparse(a[0]) != "0":
+                    short = l
+        if short is not None:
+            rr.fail(ffp.qual, f"`for ... in {unparse(short.iter)[:60]}` does not visit every predicate position (position 0 - the first, most precise pattern - is never tried)", ctx.loc(ffp, short))
+        else:
+            rr.ok({"lookup": unparse(by_position[0])[:80], "by": "loop position"})
     else:
         rr.fail(ffp.qual, "the pattern used for formatting is not the one at the position of the accepting predicate", ffp.loc)
     # the two parallel lists are filled pairwise at every construction site
